@@ -23,6 +23,8 @@ type schedThread struct {
 	done    bool
 	blocked bool // found its next lock taken; cleared by any release
 	resumed bool // switched out at an acquisition that it re-executes when switched in
+	pending bool // has just performed a channel operation: the scheduler may switch before its next instruction
+	passing bool // was switched out at such a point: passes it (one trace entry) when switched in
 }
 
 type schedState struct {
@@ -31,6 +33,7 @@ type schedState struct {
 	main     []*Frame
 	preempts int
 	trace    []int // thread id per lock acquisition, in global order
+	tracePos []string
 	wHold    map[string]int
 	rHold    map[string][]int
 	stuckMsg string
@@ -53,6 +56,7 @@ func (s *schedState) clone() *schedState {
 		n.main[j] = f.clone()
 	}
 	n.trace = append([]int(nil), s.trace...)
+	n.tracePos = append([]string(nil), s.tracePos...)
 	n.wHold = make(map[string]int, len(s.wHold))
 	for k, v := range s.wHold {
 		n.wHold[k] = v
@@ -119,6 +123,9 @@ func (e *Exec) schedPickNext(st *State) {
 	}
 	if unfinished == 0 {
 		e.addInput(st, "__schedule", "string", e.ConcStr(sc.traceString()))
+		if e.SchedDebug {
+			e.addInput(st, "__schedule_at", "string", e.ConcStr(strings.Join(sc.tracePos, " ")))
+		}
 		st.frames = sc.main
 		st.sched = nil
 		return
@@ -176,7 +183,7 @@ func (e *Exec) schedAcquire(st *State, ci *CallInfo, key string, write bool) Out
 			r[c.cur]++
 			c.rHold[key] = r
 		}
-		c.trace = append(c.trace, c.cur)
+		e.schedTrace(s)
 	}
 	var others []int
 	for t := range sc.threads {
@@ -279,12 +286,11 @@ func (e *Exec) schedYield(st *State) Outcome {
 	}
 	if th.resumed || sc.preempts == 0 || len(others) == 0 || st.panicking != nil {
 		th.resumed = false
-		sc.trace = append(sc.trace, sc.cur)
+		e.schedTrace(st)
 		return val(nil)
 	}
 	alts := []AltOut{{Cond: e.C.True, Do: func(s *State) bool {
-		c := s.sched
-		c.trace = append(c.trace, c.cur)
+		e.schedTrace(s)
 		return true
 	}}}
 	for _, t := range others {
@@ -300,4 +306,110 @@ func (e *Exec) schedYield(st *State) Outcome {
 		}})
 	}
 	return Outcome{Kind: OutAlts, Exhaustive: true, Alts: alts}
+}
+
+// schedChanOp is called after a channel operation (send, receive, select) of the running thread in interleaved mode:
+// channel operations synchronise, so the instruction boundary behind them is a switch point. Also wakes threads that
+// were found blocked.
+func (e *Exec) schedChanOp(st *State) {
+	sc := st.sched
+	if sc == nil || sc.cur < 0 {
+		return
+	}
+	sc.threads[sc.cur].pending = true
+	for t := range sc.threads {
+		sc.threads[t].blocked = false
+	}
+}
+
+// schedBlockOnChan: the running thread's channel operation cannot proceed now. It is parked at the instruction (which it
+// re-executes when switched in); false when no other thread can run (stuck).
+func (e *Exec) schedBlockOnChan(st *State) bool {
+	sc := st.sched
+	var others []int
+	for t := range sc.threads {
+		if t != sc.cur && !sc.threads[t].done && !sc.threads[t].blocked {
+			others = append(others, t)
+		}
+	}
+	if len(others) == 0 {
+		e.schedStuck(st)
+		return false
+	}
+	var alts []Alt
+	for _, t := range others {
+		t := t
+		alts = append(alts, Alt{Cond: e.C.True, Tag: fmt.Sprintf("sched:%d->%d", sc.cur, t), Apply: func(s *State) {
+			c := s.sched
+			me := &c.threads[c.cur]
+			me.frames = s.frames
+			me.blocked = true
+			schedSwitchTo(s, t)
+		}})
+	}
+	e.forkAlts(st, alts, st.Forks)
+	return true
+}
+
+// schedBoundary is called by the run loop before every instruction in interleaved mode; true when it changed the
+// running thread or forked (the loop re-reads the state).
+func (e *Exec) schedBoundary(st *State) bool {
+	sc := st.sched
+	if sc.cur < 0 {
+		return false
+	}
+	th := &sc.threads[sc.cur]
+	if th.passing {
+		th.passing = false
+		e.schedTrace(st)
+	}
+	if !th.pending {
+		return false
+	}
+	th.pending = false
+	var others []int
+	for t := range sc.threads {
+		if t != sc.cur && !sc.threads[t].done && !sc.threads[t].blocked {
+			others = append(others, t)
+		}
+	}
+	if sc.preempts == 0 || len(others) == 0 || st.panicking != nil || st.unwinding {
+		e.schedTrace(st)
+		return false
+	}
+	alts := []Alt{{Cond: e.C.True, Apply: func(s *State) {
+		e.schedTrace(s)
+	}}}
+	for _, t := range others {
+		t := t
+		alts = append(alts, Alt{Cond: e.C.True, Tag: fmt.Sprintf("sched:%d->%d", sc.cur, t), Apply: func(s *State) {
+			c := s.sched
+			me := &c.threads[c.cur]
+			me.frames = s.frames
+			me.passing = true
+			c.preempts--
+			schedSwitchTo(s, t)
+		}})
+	}
+	e.forkAlts(st, alts, st.Forks)
+	return true
+}
+
+// schedTrace records that the running thread passes a turn-taking point (with its source position, for debugging).
+func (e *Exec) schedTrace(st *State) {
+	sc := st.sched
+	sc.trace = append(sc.trace, sc.cur)
+	pos := ""
+	if len(st.frames) > 0 {
+		for i := len(st.frames) - 1; i >= 0; i-- {
+			fr := st.frames[i]
+			if fr.idx < len(fr.block.Instrs) {
+				if p := e.instrPos(fr, fr.block.Instrs[fr.idx]); p != "" && !strings.HasPrefix(p, "zz_verif_enc") {
+					pos = p
+					break
+				}
+			}
+		}
+	}
+	sc.tracePos = append(sc.tracePos, fmt.Sprintf("%d@%s", sc.cur, pos))
 }
